@@ -6,42 +6,503 @@ import Strophe.Spec.Rfc4648
 
 namespace Strophe.Lemmas.Base64
 open Strophe Strophe.Base64
+open Strophe.Spec.Rfc4648 (value padChar alphabet)
+
+private theorem forall_u8 {P : UInt8 → Prop} (h : ∀ n, n < 256 → P (UInt8.ofNat n)) (c : UInt8) : P c := by
+  have := h c.toNat (UInt8.toNat_lt c)
+  simpa using this
+
+private theorem cls_tab : ∀ n, n < 256 →
+   (inv (UInt8.ofNat n) < 64 ∧ value (UInt8.ofNat n) = some (inv (UInt8.ofNat n)) ∧ UInt8.ofNat n ≠ padChar) ∨
+   (inv (UInt8.ofNat n) = 64 ∧ value (UInt8.ofNat n) = none ∧ UInt8.ofNat n = padChar) ∨
+   (inv (UInt8.ofNat n) = 65 ∧ value (UInt8.ofNat n) = none ∧ UInt8.ofNat n ≠ padChar) := by decide +kernel
+
+private theorem cls (c : UInt8) :
+   (inv c < 64 ∧ value c = some (inv c) ∧ c ≠ padChar) ∨
+   (inv c = 64 ∧ value c = none ∧ c = padChar) ∨
+   (inv c = 65 ∧ value c = none ∧ c ≠ padChar) :=
+  forall_u8 (P := fun c => (inv c < 64 ∧ value c = some (inv c) ∧ c ≠ padChar) ∨
+   (inv c = 64 ∧ value c = none ∧ c = padChar) ∨
+   (inv c = 65 ∧ value c = none ∧ c ≠ padChar)) cls_tab c
 
 theorem charmap_is_rfc : ∀ v, v < 64 → chr v = Spec.Rfc4648.alphabet v := by
-  sorry
+  decide +kernel
 
 theorem pad_is_rfc : pad = Spec.Rfc4648.padChar := by
-  sorry
+  decide
 
 theorem invcharmap_is_rfc (c : UInt8) :
     inv c = match Spec.Rfc4648.value c with
             | some v => v
             | none => if c = Spec.Rfc4648.padChar then 64 else 65 := by
-  sorry
+  rcases cls c with ⟨_, h, _⟩ | ⟨h1, h2, h3⟩ | ⟨h1, h2, h3⟩
+  · rw [h]
+  · rw [h2, h1]; simp [h3]
+  · rw [h2, h1]; simp [h3]
 
-theorem tables_inverse : (∀ v, v < 64 → inv (chr v) = v) ∧ (∀ c, inv c < 64 → chr (inv c) = c) := by
-  sorry
+private theorem inv_chr_tab : ∀ v, v < 64 → inv (chr v) = v := by decide +kernel
+private theorem chr_inv_tab : ∀ n, n < 256 → inv (UInt8.ofNat n) < 64 → chr (inv (UInt8.ofNat n)) = UInt8.ofNat n := by
+  decide +kernel
+
+theorem tables_inverse : (∀ v, v < 64 → inv (chr v) = v) ∧ (∀ c, inv c < 64 → chr (inv c) = c) :=
+  ⟨inv_chr_tab, fun c => forall_u8 (P := fun c => inv c < 64 → chr (inv c) = c) chr_inv_tab c⟩
 
 theorem encode_eq_rfc4648 (bs : Bytes) : encode bs = Spec.Rfc4648.encode bs := by
-  sorry
+  fun_induction encode bs with
+  | case1 a b c rest w ih =>
+    have ha := a.toNat_lt; have hb := b.toNat_lt; have hc := c.toNat_lt
+    simp only [Spec.Rfc4648.encode, ih]
+    rw [charmap_is_rfc _ (Nat.mod_lt _ (by decide)), charmap_is_rfc _ (Nat.mod_lt _ (by decide)),
+      charmap_is_rfc _ (Nat.mod_lt _ (by decide)), charmap_is_rfc _ (Nat.mod_lt _ (by decide))]
+    have : w / 262144 % 64 = w / 262144 := by omega
+    rw [this]
+  | case2 a =>
+    have ha := a.toNat_lt
+    simp only [Spec.Rfc4648.encode, pad_is_rfc]
+    rw [charmap_is_rfc _ (by omega), charmap_is_rfc _ (by omega)]
+    have h1 : a.toNat * 65536 / 262144 = a.toNat / 4 := by omega
+    have h2 : a.toNat * 65536 / 4096 % 64 = a.toNat % 4 * 16 := by omega
+    rw [h1, h2]
+  | case3 a b =>
+    have ha := a.toNat_lt; have hb := b.toNat_lt
+    simp only [Spec.Rfc4648.encode, pad_is_rfc]
+    rw [charmap_is_rfc _ (by omega), charmap_is_rfc _ (by omega), charmap_is_rfc _ (by omega)]
+    have h1 : (a.toNat * 65536 + b.toNat * 256) / 262144 = a.toNat / 4 := by omega
+    have h2 : (a.toNat * 65536 + b.toNat * 256) / 4096 % 64 = a.toNat % 4 * 16 + b.toNat / 16 := by omega
+    have h3 : (a.toNat * 65536 + b.toNat * 256) / 64 % 64 = b.toNat % 16 * 4 := by omega
+    rw [h1, h2, h3]
+  | case4 => rfl
 
 theorem encode_length (bs : Bytes) : (encode bs).length = 4 * ((bs.length + 2) / 3) := by
-  sorry
+  fun_induction encode bs with
+  | case1 a b c rest w ih => simp only [List.length_cons, ih]; omega
+  | case2 a => simp
+  | case3 a b => simp
+  | case4 => rfl
+
+/-! ### decoder -/
+
+private theorem inv_padChar : inv padChar = 64 := by decide
+private theorem value_padChar : value padChar = none := by decide
+
+private theorem quad_ind {P : Bytes → Prop} (nil : P [])
+    (step : ∀ a b c d r, r.length % 4 = 0 → P r → P (a :: b :: c :: d :: r)) :
+    ∀ s : Bytes, s.length % 4 = 0 → P s
+  | [], _ => nil
+  | [_], h => by simp at h
+  | [_, _], h => by simp at h
+  | [_, _, _], h => by simp at h
+  | a :: b :: c :: d :: r, h =>
+    have h' : r.length % 4 = 0 := by simp at h; omega
+    step a b c d r h' (quad_ind nil step r h')
+
+/-- the RFC decoder on a non-final quartet, in terms of the C table -/
+private theorem decodeQ_cons (c0 c1 c2 c3 : UInt8) (rest : Bytes) (hr : rest ≠ []) :
+    Spec.Rfc4648.decodeQ (c0 :: c1 :: c2 :: c3 :: rest) =
+      if inv c0 < 64 ∧ inv c1 < 64 ∧ inv c2 < 64 ∧ inv c3 < 64 then
+        (Spec.Rfc4648.decodeQ rest).map fun t =>
+          byte ((inv c0 * 262144 + inv c1 * 4096 + inv c2 * 64 + inv c3) / 65536) ::
+          byte ((inv c0 * 262144 + inv c1 * 4096 + inv c2 * 64 + inv c3) / 256) ::
+          byte (inv c0 * 262144 + inv c1 * 4096 + inv c2 * 64 + inv c3) :: t
+      else none := by
+  rw [Spec.Rfc4648.decodeQ.eq_2 _ _ _ _ _ (by simpa using hr)]
+  rcases cls c0 with ⟨h0, v0, _⟩ | ⟨h0, v0, _⟩ | ⟨h0, v0, _⟩ <;>
+  rcases cls c1 with ⟨h1, v1, _⟩ | ⟨h1, v1, _⟩ | ⟨h1, v1, _⟩ <;>
+  rcases cls c2 with ⟨h2, v2, _⟩ | ⟨h2, v2, _⟩ | ⟨h2, v2, _⟩ <;>
+  rcases cls c3 with ⟨h3, v3, _⟩ | ⟨h3, v3, _⟩ | ⟨h3, v3, _⟩ <;>
+  simp [v0, v1, v2, v3, h0, h1, h2, h3, byte, Spec.Rfc4648.b]
+
+/-- the RFC decoder on the final quartet, in terms of the C table -/
+private theorem decodeQ_last (c0 c1 c2 c3 : UInt8) :
+    Spec.Rfc4648.decodeQ [c0, c1, c2, c3] =
+      if inv c0 < 64 ∧ inv c1 < 64 then
+        if inv c2 < 64 then
+          if inv c3 < 64 then
+            some [byte ((inv c0 * 262144 + inv c1 * 4096 + inv c2 * 64 + inv c3) / 65536),
+                  byte ((inv c0 * 262144 + inv c1 * 4096 + inv c2 * 64 + inv c3) / 256),
+                  byte (inv c0 * 262144 + inv c1 * 4096 + inv c2 * 64 + inv c3)]
+          else if inv c3 = 64 then
+            some [byte ((inv c0 * 262144 + inv c1 * 4096 + inv c2 * 64) / 65536),
+                  byte ((inv c0 * 262144 + inv c1 * 4096 + inv c2 * 64) / 256)]
+          else none
+        else if inv c2 = 64 ∧ inv c3 = 64 then
+          some [byte ((inv c0 * 262144 + inv c1 * 4096) / 65536)]
+        else none
+      else none := by
+  rw [Spec.Rfc4648.decodeQ.eq_1]
+  rcases cls c0 with ⟨h0, v0, p0⟩ | ⟨h0, v0, p0⟩ | ⟨h0, v0, p0⟩ <;>
+  rcases cls c1 with ⟨h1, v1, p1⟩ | ⟨h1, v1, p1⟩ | ⟨h1, v1, p1⟩ <;>
+  rcases cls c2 with ⟨h2, v2, p2⟩ | ⟨h2, v2, p2⟩ | ⟨h2, v2, p2⟩ <;>
+  rcases cls c3 with ⟨h3, v3, p3⟩ | ⟨h3, v3, p3⟩ | ⟨h3, v3, p3⟩ <;>
+  simp [v0, v1, v2, v3, h0, h1, h2, h3, p2, p3, byte, Spec.Rfc4648.b, inv_padChar, value_padChar] <;> omega
+
+/-- bytes of a run of all-valid quartets; `none` if it contains a character with `inv ≥ 64` -/
+private def fullOpt : Bytes → Option Bytes
+  | c0 :: c1 :: c2 :: c3 :: rest =>
+    if inv c0 < 64 ∧ inv c1 < 64 ∧ inv c2 < 64 ∧ inv c3 < 64 then
+      (fullOpt rest).map fun t =>
+        byte ((inv c0 * 262144 + inv c1 * 4096 + inv c2 * 64 + inv c3) / 65536) ::
+        byte ((inv c0 * 262144 + inv c1 * 4096 + inv c2 * 64 + inv c3) / 256) ::
+        byte (inv c0 * 262144 + inv c1 * 4096 + inv c2 * 64 + inv c3) :: t
+    else none
+  | _ => some []
+
+private theorem fullOpt_length : ∀ p : Bytes, p.length % 4 = 0 →
+    ∀ v, fullOpt p = some v → v.length = 3 * (p.length / 4) := by
+  apply quad_ind
+  · intro v h; simp [fullOpt] at h; subst h; rfl
+  · intro a b c d r hr ih v h
+    simp only [fullOpt] at h
+    split at h
+    · cases hf : fullOpt r with
+      | none => simp [hf] at h
+      | some t =>
+        simp [hf] at h; subst h
+        have := ih t hf
+        simp only [List.length_cons, this]; omega
+    · simp at h
+
+private theorem decodeQ_prefix (q0 q1 q2 q3 : UInt8) : ∀ p : Bytes, p.length % 4 = 0 →
+    Spec.Rfc4648.decodeQ (p ++ [q0, q1, q2, q3]) =
+      (fullOpt p).bind fun v => (Spec.Rfc4648.decodeQ [q0, q1, q2, q3]).map (v ++ ·) := by
+  apply quad_ind
+  · simp [fullOpt]
+  · intro a b c d r hr ih
+    simp only [List.cons_append]
+    rw [decodeQ_cons _ _ _ _ _ (by simp), ih]
+    simp only [fullOpt]
+    split
+    · cases fullOpt r <;> simp
+      cases Spec.Rfc4648.decodeQ [q0, q1, q2, q3] <;> simp
+    · rfl
+
+private theorem quartets_prefix (q : Bytes) (hq : q.length = 4) : ∀ p : Bytes, p.length % 4 = 0 →
+    ∀ acc h,
+      (∀ v, fullOpt p = some v → ∃ h', quartets (p ++ q) acc h = quartets q (acc ++ v) h') ∧
+      (fullOpt p = none → 64 < (quartets (p ++ q) acc h).hextet ∨
+        8 ≤ (quartets (p ++ q) acc h).rest.length) := by
+  apply quad_ind
+  · intro acc h
+    simp [fullOpt]
+    exact ⟨h, rfl⟩
+  · intro a b c d r hr ih acc h
+    simp only [List.cons_append, fullOpt, quartets]
+    by_cases hc : inv a < 64 ∧ inv b < 64 ∧ inv c < 64 ∧ inv d < 64
+    · obtain ⟨ha, hb, hc', hd⟩ := hc
+      have na : ¬ inv a ≥ 64 := by omega
+      have nb : ¬ inv b ≥ 64 := by omega
+      have nc : ¬ inv c ≥ 64 := by omega
+      have nd : ¬ inv d ≥ 64 := by omega
+      simp only [ha, hb, hc', hd, and_self, if_true, na, nb, nc, nd, if_false]
+      have ih' := ih (acc ++ [byte ((inv a * 262144 + inv b * 4096 + inv c * 64 + inv d) / 65536),
+        byte ((inv a * 262144 + inv b * 4096 + inv c * 64 + inv d) / 256),
+        byte (inv a * 262144 + inv b * 4096 + inv c * 64 + inv d)]) (inv d)
+      constructor
+      · intro v hv
+        cases hf : fullOpt r with
+        | none => simp [hf] at hv
+        | some t =>
+          simp [hf] at hv; subst hv
+          obtain ⟨h', e⟩ := ih'.1 t hf
+          exact ⟨h', by rw [e]; simp⟩
+      · intro hn
+        cases hf : fullOpt r with
+        | none => exact ih'.2 hf
+        | some t => simp [hf] at hn
+    · rw [if_neg hc]
+      refine ⟨by simp, fun _ => ?_⟩
+      right
+      split
+      · simp [hq]
+      · split
+        · simp [hq]
+        · split
+          · simp [hq]
+          · split
+            · simp [hq]
+            · omega
+
+private theorem nudgeScan_ge : ∀ (l : Bytes) (n m : Nat), nudgeScan l n = some m → n ≤ m := by
+  intro l
+  induction l with
+  | nil => intro n m h; simp [nudgeScan] at h; omega
+  | cons c rest ih =>
+    intro n m h
+    simp only [nudgeScan] at h
+    split at h
+    · simp at h; omega
+    · split at h
+      · have := ih _ _ h; omega
+      · simp at h
+
+/-- the part of `base64_decoded_len` after the `len < 4` test -/
+private def dlenOf (r : Bytes) (K : Nat) : Nat :=
+  match nudgeScan r 0 with
+  | none => 0
+  | some n => if n > 2 then 0 else K - n
+
+private theorem dlenOf_last (r : Bytes) (c0 c1 c2 c3 : UInt8) (K : Nat) :
+    dlenOf (c3 :: c2 :: c1 :: c0 :: r) K =
+      if inv c3 < 64 then K
+      else if inv c3 = 64 then
+        if inv c2 < 64 then K - 1
+        else if inv c2 = 64 then
+          if inv c1 < 64 then K - 2 else 0
+        else 0
+      else 0 := by
+  unfold dlenOf
+  by_cases h3 : inv c3 < 64
+  · rw [nudgeScan, if_pos h3, if_pos h3]; simp
+  · by_cases h3' : inv c3 = 64
+    · rw [nudgeScan, if_neg h3, if_pos h3', if_neg h3, if_pos h3']
+      by_cases h2 : inv c2 < 64
+      · rw [nudgeScan, if_pos h2, if_pos h2]; simp
+      · by_cases h2' : inv c2 = 64
+        · rw [nudgeScan, if_neg h2, if_pos h2', if_neg h2, if_pos h2']
+          by_cases h1 : inv c1 < 64
+          · rw [nudgeScan, if_pos h1, if_pos h1]; simp
+          · rw [if_neg h1, nudgeScan, if_neg h1]
+            by_cases h1' : inv c1 = 64
+            · rw [if_pos h1']
+              cases hn : nudgeScan (c0 :: r) (0 + 1 + 1 + 1) with
+              | none => rfl
+              | some m =>
+                have := nudgeScan_ge _ _ _ hn
+                have : m > 2 := by omega
+                simp [this]
+            · rw [if_neg h1']
+        · rw [nudgeScan, if_neg h2, if_neg h2', if_neg h2, if_neg h2']
+    · rw [nudgeScan, if_neg h3, if_neg h3', if_neg h3, if_neg h3']
+
+private theorem tri (c : UInt8) :
+    (inv c < 64 ∧ ¬ 64 ≤ inv c ∧ inv c ≠ 64 ∧ ¬ 64 < inv c) ∨ inv c = 64 ∨ inv c = 65 := by
+  rcases cls c with ⟨h, _, _⟩ | ⟨h, _, _⟩ | ⟨h, _, _⟩
+  · left; omega
+  · right; left; exact h
+  · right; right; exact h
+
+private theorem lastQ (c0 c1 c2 c3 : UInt8) (acc : Bytes) (h k dlen : Nat)
+    (hd : dlen =
+      if inv c3 < 64 then 3 * k + 3
+      else if inv c3 = 64 then
+        if inv c2 < 64 then 3 * k + 3 - 1
+        else if inv c2 = 64 then
+          if inv c1 < 64 then 3 * k + 3 - 2 else 0
+        else 0
+      else 0) :
+    (if dlen = 0 then none
+     else if (quartets [c0, c1, c2, c3] acc h).hextet > 64 then none
+     else if (quartets [c0, c1, c2, c3] acc h).rest ≠ [] ∧
+        ((quartets [c0, c1, c2, c3] acc h).rest.length ≠ 4 ∨ dlen % 3 = 0) then none
+     else match tail [c0, c1, c2, c3] (dlen % 3) with
+       | none => none
+       | some t => some ((quartets [c0, c1, c2, c3] acc h).written ++ t, dlen)) =
+    (Spec.Rfc4648.decodeQ [c0, c1, c2, c3]).map fun v => (acc ++ v, 3 * k + v.length) := by
+  rw [decodeQ_last]
+  rcases tri c3 with ⟨h3, h3a, h3b, h3c⟩ | h3 | h3 <;>
+  rcases tri c2 with ⟨h2, h2a, h2b, h2c⟩ | h2 | h2 <;>
+  rcases tri c1 with ⟨h1, h1a, h1b, h1c⟩ | h1 | h1 <;>
+  rcases tri c0 with ⟨h0, h0a, h0b, h0c⟩ | h0 | h0 <;>
+  simp [*] at hd <;> subst hd <;> simp [quartets, tail, *] <;>
+  first
+    | exact ⟨congrArg byte (by omega), congrArg byte (by omega)⟩
+    | exact congrArg byte (by omega)
+
+private theorem decodeQ_len : ∀ (s v : Bytes), Spec.Rfc4648.decodeQ s = some v → s.length % 4 = 0
+  | [], _, h => by simp
+  | [_], _, h => by simp [Spec.Rfc4648.decodeQ] at h
+  | [_, _], _, h => by simp [Spec.Rfc4648.decodeQ] at h
+  | [_, _, _], _, h => by simp [Spec.Rfc4648.decodeQ] at h
+  | [_, _, _, _], _, h => by simp
+  | a :: b :: c :: d :: e :: r, v, h => by
+    rw [decodeQ_cons _ _ _ _ _ (by simp)] at h
+    split at h
+    · cases hr : Spec.Rfc4648.decodeQ (e :: r) with
+      | none => simp [hr] at h
+      | some t =>
+        have := decodeQ_len (e :: r) t hr
+        simp only [List.length_cons] at this ⊢; omega
+    · simp at h
+
+private theorem split_last4 : ∀ s : Bytes, s.length % 4 = 0 → s ≠ [] →
+    ∃ p c0 c1 c2 c3, s = p ++ [c0, c1, c2, c3] ∧ p.length % 4 = 0 := by
+  apply quad_ind
+  · intro h; exact absurd rfl h
+  · intro a b c d r hr ih _
+    by_cases hn : r = []
+    · subst hn; exact ⟨[], a, b, c, d, rfl, rfl⟩
+    · obtain ⟨p, c0, c1, c2, c3, e, hp⟩ := ih hn
+      refine ⟨a :: b :: c :: d :: p, c0, c1, c2, c3, by rw [e]; rfl, ?_⟩
+      simp only [List.length_cons]; omega
 
 theorem decode_exact (s : Bytes) :
     decodeBin s = if s = [] then none
                   else (Spec.Rfc4648.decode s).map fun v => (v, v.length) := by
-  sorry
+  by_cases hs : s = []
+  · subst hs; rfl
+  rw [if_neg hs]
+  unfold decodeBin Spec.Rfc4648.decode
+  by_cases hm : s.length % 4 = 0
+  · obtain ⟨p, c0, c1, c2, c3, rfl, hp⟩ := split_last4 s hm hs
+    have hlen : (p ++ [c0, c1, c2, c3]).length = p.length + 4 := by simp
+    have hdl : decodedLen (p ++ [c0, c1, c2, c3]) =
+        dlenOf (c3 :: c2 :: c1 :: c0 :: p.reverse) (3 * (p.length / 4) + 3) := by
+      unfold decodedLen
+      rw [if_neg (by omega)]
+      have : 3 * ((p ++ [c0, c1, c2, c3]).length / 4) = 3 * (p.length / 4) + 3 := by omega
+      have hrev : (p ++ [c0, c1, c2, c3]).reverse = c3 :: c2 :: c1 :: c0 :: p.reverse := by simp
+      rw [this, hrev]
+      rfl
+    have hdrop : (p ++ [c0, c1, c2, c3]).drop ((p ++ [c0, c1, c2, c3]).length - 4) =
+        [c0, c1, c2, c3] := by
+      have : (p ++ [c0, c1, c2, c3]).length - 4 = p.length := by omega
+      rw [this]; exact List.drop_left
+    unfold decode
+    rw [if_neg (by omega)]
+    simp only [hdrop]
+    rw [decodeQ_prefix _ _ _ _ p hp]
+    have hq := quartets_prefix [c0, c1, c2, c3] rfl p hp [] 0
+    cases hf : fullOpt p with
+    | none =>
+      have hbad := hq.2 hf
+      simp only [Option.bind_none, Option.map_none]
+      split
+      · rfl
+      · split
+        · rfl
+        · split
+          · rfl
+          · rename_i h1 h2 h3
+            exfalso
+            rcases hbad with hb | hb
+            · exact h2 hb
+            · apply h3
+              constructor
+              · intro he; rw [he] at hb; simp at hb
+              · left; omega
+    | some v =>
+      obtain ⟨h', he⟩ := hq.1 v hf
+      rw [he]
+      have := lastQ c0 c1 c2 c3 ([] ++ v) h' (p.length / 4) _
+        ((hdl.trans (dlenOf_last _ _ _ _ _ _)))
+      refine this.trans ?_
+      simp only [Option.bind_some, Option.map_map]
+      have hv := fullOpt_length p hp v hf
+      cases Spec.Rfc4648.decodeQ [c0, c1, c2, c3] with
+      | none => rfl
+      | some t => simp [hv]
+  · have : Spec.Rfc4648.decodeQ s = none := by
+      cases h : Spec.Rfc4648.decodeQ s with
+      | none => rfl
+      | some v => exact absurd (decodeQ_len s v h) hm
+    rw [this]
+    simp [decode, hm]
+
+private theorem inv_alphabet : ∀ v, v < 64 → inv (alphabet v) = v := by decide +kernel
+
+private theorem byte_eq (n : Nat) (x : UInt8) (h : n % 256 = x.toNat) : byte n = x := by
+  unfold byte; rw [h]; simp
+
+private theorem spec_encode_ne_nil (bs : Bytes) (h : bs ≠ []) : Spec.Rfc4648.encode bs ≠ [] := by
+  intro he
+  have := encode_length bs
+  rw [encode_eq_rfc4648, he] at this
+  cases bs with
+  | nil => exact h rfl
+  | cons a r => simp at this; omega
+
+private theorem decodeQ_encode : ∀ bs : Bytes, bs ≠ [] →
+    Spec.Rfc4648.decodeQ (Spec.Rfc4648.encode bs) = some bs
+  | [], h => absurd rfl h
+  | [x], _ => by
+    have hx := x.toNat_lt
+    rw [Spec.Rfc4648.encode, decodeQ_last]
+    simp only [inv_alphabet (x.toNat * 65536 / 262144) (by omega),
+      inv_alphabet (x.toNat * 65536 / 4096 % 64) (by omega), inv_padChar]
+    simp
+    refine ⟨by omega, byte_eq _ _ ?_⟩
+    omega
+  | [x, y], _ => by
+    have hx := x.toNat_lt; have hy := y.toNat_lt
+    rw [Spec.Rfc4648.encode, decodeQ_last]
+    simp only [inv_alphabet ((x.toNat * 65536 + y.toNat * 256) / 262144) (by omega),
+      inv_alphabet ((x.toNat * 65536 + y.toNat * 256) / 4096 % 64) (by omega),
+      inv_alphabet ((x.toNat * 65536 + y.toNat * 256) / 64 % 64) (by omega), inv_padChar]
+    have h1 : (x.toNat * 65536 + y.toNat * 256) / 262144 < 64 := by omega
+    have h2 : (x.toNat * 65536 + y.toNat * 256) / 4096 % 64 < 64 := by omega
+    have h3 : (x.toNat * 65536 + y.toNat * 256) / 64 % 64 < 64 := by omega
+    simp [h1, h2, h3]
+    refine ⟨byte_eq _ _ ?_, byte_eq _ _ ?_⟩ <;> omega
+  | [x, y, z], _ => by
+    have hx := x.toNat_lt; have hy := y.toNat_lt; have hz := z.toNat_lt
+    rw [Spec.Rfc4648.encode, Spec.Rfc4648.encode, decodeQ_last]
+    simp only [inv_alphabet ((x.toNat * 65536 + y.toNat * 256 + z.toNat) / 262144) (by omega),
+      inv_alphabet ((x.toNat * 65536 + y.toNat * 256 + z.toNat) / 4096 % 64) (by omega),
+      inv_alphabet ((x.toNat * 65536 + y.toNat * 256 + z.toNat) / 64 % 64) (by omega),
+      inv_alphabet ((x.toNat * 65536 + y.toNat * 256 + z.toNat) % 64) (by omega)]
+    have h1 : (x.toNat * 65536 + y.toNat * 256 + z.toNat) / 262144 < 64 := by omega
+    have h2 : (x.toNat * 65536 + y.toNat * 256 + z.toNat) / 4096 % 64 < 64 := by omega
+    have h3 : (x.toNat * 65536 + y.toNat * 256 + z.toNat) / 64 % 64 < 64 := by omega
+    have h4 : (x.toNat * 65536 + y.toNat * 256 + z.toNat) % 64 < 64 := by omega
+    simp [h1, h2, h3, h4]
+    refine ⟨byte_eq _ _ ?_, byte_eq _ _ ?_, byte_eq _ _ ?_⟩ <;> omega
+  | x :: y :: z :: w :: r, _ => by
+    have hx := x.toNat_lt; have hy := y.toNat_lt; have hz := z.toNat_lt
+    have ih := decodeQ_encode (w :: r) (by simp)
+    rw [Spec.Rfc4648.encode, decodeQ_cons _ _ _ _ _ (spec_encode_ne_nil _ (by simp)), ih]
+    simp only [inv_alphabet ((x.toNat * 65536 + y.toNat * 256 + z.toNat) / 262144) (by omega),
+      inv_alphabet ((x.toNat * 65536 + y.toNat * 256 + z.toNat) / 4096 % 64) (by omega),
+      inv_alphabet ((x.toNat * 65536 + y.toNat * 256 + z.toNat) / 64 % 64) (by omega),
+      inv_alphabet ((x.toNat * 65536 + y.toNat * 256 + z.toNat) % 64) (by omega)]
+    have h1 : (x.toNat * 65536 + y.toNat * 256 + z.toNat) / 262144 < 64 := by omega
+    have h2 : (x.toNat * 65536 + y.toNat * 256 + z.toNat) / 4096 % 64 < 64 := by omega
+    have h3 : (x.toNat * 65536 + y.toNat * 256 + z.toNat) / 64 % 64 < 64 := by omega
+    have h4 : (x.toNat * 65536 + y.toNat * 256 + z.toNat) % 64 < 64 := by omega
+    simp [h1, h2, h3, h4]
+    refine ⟨byte_eq _ _ ?_, byte_eq _ _ ?_, byte_eq _ _ ?_⟩ <;> omega
 
 theorem decode_encode (bs : Bytes) (h : bs ≠ []) :
     decodeBin (encode bs) = some (bs, bs.length) := by
-  sorry
+  rw [decode_exact, encode_eq_rfc4648, if_neg (spec_encode_ne_nil bs h)]
+  unfold Spec.Rfc4648.decode
+  rw [decodeQ_encode bs h]; rfl
+
+private theorem takeWhile_length (p : UInt8 → Bool) (l : Bytes) :
+    l.length = (l.takeWhile p).length ↔ ∀ x ∈ l, p x = true := by
+  induction l with
+  | nil => simp
+  | cons a r ih =>
+    rw [List.takeWhile_cons]
+    cases hp : p a <;> simp [hp, ih]
+
+private theorem cStrlen_eq (v : Bytes) : v.length = cStrlen v ↔ (0 : UInt8) ∉ v := by
+  unfold cStrlen
+  rw [takeWhile_length]
+  constructor
+  · intro h h0; simpa using h 0 h0
+  · intro h x hx
+    have : x ≠ 0 := fun e => h (e ▸ hx)
+    simpa using this
 
 theorem decode_str_exact (s : Bytes) :
     decodeStr s = if s = [] then some []
                   else match Spec.Rfc4648.decode s with
                     | none => none
                     | some v => if (0 : UInt8) ∈ v then none else some v := by
-  sorry
+  unfold decodeStr
+  by_cases hs : s = []
+  · subst hs; rfl
+  have hl : s.length ≠ 0 := by simpa using hs
+  rw [if_neg hs, if_neg hl]
+  have := decode_exact s
+  unfold decodeBin at this
+  rw [this, if_neg hs]
+  cases Spec.Rfc4648.decode s with
+  | none => rfl
+  | some v =>
+    simp only [Option.map_some]
+    by_cases h0 : (0 : UInt8) ∈ v
+    · rw [if_pos h0, if_pos]; rw [Ne, cStrlen_eq]; exact fun h => h h0
+    · rw [if_neg h0, if_neg]; rw [Ne, cStrlen_eq]; exact fun h => h h0
 
 end Strophe.Lemmas.Base64
